@@ -137,7 +137,7 @@ func (g *synGen) dest(d int) J {
 func (g *synGen) call(stmt bool) J {
 	r := g.r
 	name := pick(r, []string{"set_tx_meta", "set_account_meta", "meta", "balance", "overdraft", "foo", "a_b"})
-	n := r.Intn(4)
+	n := r.Intn(6)
 	args := []any{}
 	for i := 0; i < n; i++ {
 		args = append(args, g.value(2))
@@ -259,4 +259,61 @@ func cmdSynCheck(args []string) {
 	}
 	lw.close()
 	printJSON(J{"cases": n, "nontrivial": nontriv, "node_kinds": len(kinds), "samples": samples})
+}
+
+
+// ---- token soups (C14 / C18): random sequences over the token alphabet, no validity claim -------------
+
+var soupAlphabet = []string{"{", "}", "(", ")", "[", "]", "=", "*", ",", "send", "max", "remaining", "kept", "to", "from", "@x", "@a:b", "$v", "$w", "USD", "EUR/2", "5", "-3",
+	"1/2", "50%", "\"s\"", "-", "+", "vars", "source", "destination", "allowing", "unbounded", "overdraft", "up", "save", "set_tx_meta", "set_account_meta", "balance", "meta",
+	"account", "monetary", "portion", "number", "é", "#", "\"open", "$", "@", "1/", "/* c */", "// c\n", "%", "1/0", "0/0"}
+
+// vh soups <seed> <n> <out.ndjson>: documents in the format Edit.tla prints (text, line table, lexok=false)
+func cmdSoups(args []string) {
+	if len(args) != 3 {
+		die(2, "usage: vh soups <seed> <n> <out>")
+	}
+	seed, n := argInt(args[0]), argInt(args[1])
+	r := rand.New(rand.NewSource(int64(seed)*99991 + 7))
+	lw := newLineWriter(args[2])
+	starts := [][]string{{}, {"send", "[", "USD", "5", "]", "(", "source", "="}, {"vars", "{", "account", "$v"}, {"set_tx_meta", "("}, {"send", "[", "USD", "*", "]", "(", "source", "=", "@a", "destination", "=", "{"}}
+	for i := 0; i < n; i++ {
+		toks := append([]string{}, pick(r, starts)...)
+		k := 1 + r.Intn(14)
+		for j := 0; j < k; j++ {
+			toks = append(toks, pick(r, soupAlphabet))
+		}
+		text := ""
+		for j, t := range toks {
+			if j > 0 {
+				if r.Intn(6) == 0 {
+					text += "\n"
+				} else {
+					text += " "
+				}
+			}
+			text += t
+		}
+		var lens []int
+		for _, l := range splitLines(text) {
+			lens = append(lens, len([]rune(l)))
+		}
+		lw.write(J{"id": i, "text": text, "lines": lens, "lexok": false, "accepts": false, "ntoks": len(toks)})
+	}
+	lw.close()
+	printJSON(J{"soups": n})
+}
+
+func splitLines(s string) []string {
+	var out []string
+	cur := ""
+	for _, c := range s {
+		if c == '\n' {
+			out = append(out, cur)
+			cur = ""
+		} else {
+			cur += string(c)
+		}
+	}
+	return append(out, cur)
 }
